@@ -45,6 +45,12 @@ type Action struct {
 	// per-call options of an explicit sync (0 = not given)
 	Depth int `json:"depth,omitempty"` // ScopedDepthLimit
 	Seg   int `json:"seg,omitempty"`   // ScopedSegmentDepthLimit
+	// more per-call options of an explicit sync
+	Resync   bool `json:"resync,omitempty"`    // WithAdsResync(true): do not stop at the latest sync
+	StopBack int  `json:"stop_back,omitempty"` // WithStopAdCid(the ad this many below the head); 0 = not given
+	// a failing sync fails at the block this many below the head (0 = the head block): that
+	// many blocks have been fetched when it fails
+	FailAfter int `json:"fail_after,omitempty"`
 }
 
 type Scenario struct {
@@ -65,12 +71,27 @@ type Scenario struct {
 // blocksOwed is the number of advertisements a sync of a publisher whose head is #head
 // and whose latest sync is #latest (-1: none) fetches under the scenario's options: the
 // new ones, cut at the depth limit that applies to this sync.
+//
+// Table of what SyncAdChain does (read off /repo HEAD, see design-notes/C14.md): without
+// WithHeadAdCid a completed sync sets the latest sync to the head and sends one notification,
+// whatever the other options; the walk goes from the head down to the stop link - the ad of
+// WithStopAdCid if given, else none under WithAdsResync, else the latest sync - and is cut at
+// the depth limit - ScopedDepthLimit if given, else FirstSyncDepth if there is no stop link,
+// else AdsDepthLimit.
 func (sc *Scenario) blocksOwed(a *action, latest int) int {
 	n := a.head - latest
+	noStop := latest < 0
+	if a.Kind == "explicit" {
+		if a.StopBack > 0 {
+			n, noStop = a.StopBack, false
+		} else if a.Resync {
+			n, noStop = a.head+1, true
+		}
+	}
 	limit := sc.AdsDepth
 	if a.Kind == "explicit" && a.Depth != 0 {
 		limit = a.Depth
-	} else if latest < 0 && sc.FirstDepth != 0 {
+	} else if noStop && sc.FirstDepth != 0 {
 		limit = sc.FirstDepth
 	}
 	if limit > 0 && n > limit {
@@ -194,6 +215,9 @@ func runScenario(sc Scenario) (res Result) {
 				adv = 1
 			}
 			heads[a.Pub] += adv
+			if a.StopBack > heads[a.Pub]-1 {
+				a.StopBack = heads[a.Pub] - 1 // the first ad of the chain at the lowest
+			}
 			ra = append(ra, &action{Action: a, sid: sid, head: heads[a.Pub] - 1})
 			sid++
 		}
@@ -336,11 +360,6 @@ func runScenario(sc Scenario) (res Result) {
 			a := a
 			p := pubs[a.Pub]
 			p.SetHead(a.head)
-			if a.Fail {
-				failMu.Lock()
-				failCid[p.Chain[a.head]] = true
-				failMu.Unlock()
-			}
 			// what the property owes for this action
 			switch a.Kind {
 			case "explicit":
@@ -352,6 +371,19 @@ func runScenario(sc Scenario) (res Result) {
 				a.expEvent = true
 				a.expErr = a.Fail
 				a.expCnt = sc.blocksOwed(a, latestIdx[a.Pub])
+			}
+			if a.Fail {
+				// the block that fails: FailAfter below the head, within what this sync walks
+				k := a.FailAfter
+				if owed := sc.blocksOwed(a, latestIdx[a.Pub]); k > owed-1 {
+					k = owed - 1
+				}
+				if k < 0 {
+					k = 0
+				}
+				failMu.Lock()
+				failCid[p.Chain[a.head-k]] = true
+				failMu.Unlock()
 			}
 			if a.expEvent {
 				expected++
@@ -375,6 +407,12 @@ func runScenario(sc Scenario) (res Result) {
 						}
 						if a.Seg != 0 {
 							so = append(so, dagsync.ScopedSegmentDepthLimit(int64(a.Seg)))
+						}
+						if a.Resync {
+							so = append(so, dagsync.WithAdsResync(true))
+						}
+						if a.StopBack > 0 {
+							so = append(so, dagsync.WithStopAdCid(p.Chain[a.head-a.StopBack]))
 						}
 						a.retCid, a.retErr = w.Sub.SyncAdChain(ctx, p.Info(), so...)
 					case "explicit-head":
@@ -727,8 +765,57 @@ func genRandom(rng *vlib.Rand, seed uint64) Scenario {
 				if round[i].Kind == "explicit" && rng.Intn(4) == 0 {
 					round[i].Seg = 1 + rng.Intn(3)
 				}
+				if round[i].Kind == "explicit" && rng.Intn(4) == 0 {
+					round[i].Resync = true
+				}
+				if round[i].Kind == "explicit" && rng.Intn(4) == 0 {
+					round[i].StopBack = 1 + rng.Intn(9)
+				}
+				if round[i].Fail {
+					round[i].FailAfter = rng.Intn(round[i].Adv)
+				}
 			}
 		}
+	}
+	return sc
+}
+
+// syncs that fail after some blocks, each followed by a successful sync of the same publisher
+// at the same addresses (the handler keeps its Syncer): the successful one reports its own blocks
+func genFailThenOK(seed uint64, seg int) Scenario {
+	sc := Scenario{Kind: "fail-then-ok", Seed: seed, NPubs: 1, SegDepth: seg,
+		Listeners: []ListenerSpec{{Kind: "fast", RegRound: -1, CanRound: -1}}}
+	sc.Rounds = [][]Action{
+		{{Pub: 0, Kind: "explicit", Adv: 2}},
+		{{Pub: 0, Kind: "explicit", Adv: 4, Fail: true, FailAfter: 2}},
+		{{Pub: 0, Kind: "explicit", Adv: 1}},
+		{{Pub: 0, Kind: "announce", Adv: 3, Fail: true, FailAfter: 1}},
+		{{Pub: 0, Kind: "announce", Adv: 2}},
+		{{Pub: 0, Kind: "explicit", Adv: 5, Fail: true, FailAfter: 4}},
+		{{Pub: 0, Kind: "announce", Adv: 1}},
+		{{Pub: 0, Kind: "announce", Adv: 4, Fail: true, FailAfter: 3}},
+		{{Pub: 0, Kind: "explicit", Adv: 2}},
+	}
+	return sc
+}
+
+// explicit syncs under per-call options: resync, stop ad, scoped depth / segment depth, and
+// their combinations, interleaved with plain and announce-triggered syncs
+func genPerCall(seed uint64, seg, ads, first int) Scenario {
+	sc := Scenario{Kind: "per-call", Seed: seed, NPubs: 1, SegDepth: seg, AdsDepth: ads, FirstDepth: first,
+		Listeners: []ListenerSpec{{Kind: "fast", RegRound: -1, CanRound: -1}, {Kind: "stalled", RegRound: -1, CanRound: -1}}}
+	sc.Rounds = [][]Action{
+		{{Pub: 0, Kind: "explicit", Adv: 4, Resync: true}},
+		{{Pub: 0, Kind: "explicit", Adv: 2}},
+		{{Pub: 0, Kind: "explicit", Adv: 2, Resync: true}},
+		{{Pub: 0, Kind: "explicit", Adv: 2, StopBack: 4}},
+		{{Pub: 0, Kind: "announce", Adv: 1}},
+		{{Pub: 0, Kind: "explicit", Adv: 1, StopBack: 1, Resync: true}},
+		{{Pub: 0, Kind: "explicit", Adv: 1, Resync: true, Depth: 2}},
+		{{Pub: 0, Kind: "explicit-head", Adv: 1}},
+		{{Pub: 0, Kind: "explicit", Adv: 1, StopBack: 6, Depth: 4, Seg: 1}},
+		{{Pub: 0, Kind: "explicit", Adv: 1, Resync: true, Seg: 2}},
+		{{Pub: 0, Kind: "announce", Adv: 2}},
 	}
 	return sc
 }
@@ -850,6 +937,13 @@ func main() {
 	for _, o := range [][3]int{{0, 2, 0}, {2, 5, 0}, {0, 0, 1}, {2, 0, 3}, {1, 2, 1}, {3, 3, 2}} {
 		record(c, runScenario(genOptions(c.Seed, "mixed", o[0], o[1], o[2])))
 	}
+	// failing part-way, then succeeding; per-call options of explicit syncs
+	for _, seg := range []int{0, 2} {
+		record(c, runScenario(genFailThenOK(c.Seed, seg)))
+	}
+	for _, o := range [][3]int{{0, 0, 0}, {2, 0, 0}, {0, 3, 0}, {0, 0, 2}, {1, 3, 2}} {
+		record(c, runScenario(genPerCall(c.Seed, o[0], o[1], o[2])))
+	}
 	// long backlogs, around typical buffer sizes
 	sizes := []int{63, 64, 65, 128, 129, 300}
 	if c.Thorough() {
@@ -887,6 +981,15 @@ func record(c *vlib.Ctx, r Result) {
 			}
 			if a.Seg != 0 {
 				c.Count("opt:scoped-segment-depth")
+			}
+			if a.Resync {
+				c.Count("opt:resync")
+			}
+			if a.StopBack != 0 {
+				c.Count("opt:stop-ad")
+			}
+			if a.Fail && a.FailAfter > 0 {
+				c.Count("sync:fails-part-way")
 			}
 		}
 	}
